@@ -270,6 +270,56 @@ pub fn check_big(b: &BigDesc, st: &mut Stats) -> Check {
     })
 }
 
+/// Mass stage: very many *distinct* valid descriptors against ONE long-lived mapper and cache (any memo keyed by a
+/// lossy digest of the signature needs many distinct keys before two of them collide).
+#[derive(Clone, Debug, Serialize, Deserialize)]
+pub struct MassChunk {
+    pub start: u64,
+    pub count: u64,
+}
+
+fn nth_desc(mut i: u64, ps: &[Ty], rets: &[Option<Ty>]) -> Desc {
+    let ret = rets[(i % rets.len() as u64) as usize].clone();
+    i /= rets.len() as u64;
+    let mut params = Vec::new();
+    // bijective base-|ps| numeration: every i gives a different parameter list
+    while i > 0 {
+        i -= 1;
+        params.push(ps[(i % ps.len() as u64) as usize].clone());
+        i /= ps.len() as u64;
+    }
+    Desc { params, ret }
+}
+
+pub fn check_mass(c: &MassChunk, st: &mut Stats) -> Check {
+    let bytes = FIXED_MAPPING.as_bytes();
+    let m = mapper(bytes, false)?;
+    let buf = write_cache(bytes)?;
+    let cache = parse_cache(&buf)?;
+    let table: Vec<(&str, &str)> = vec![("a.a", "com.example.A"), ("x.Long", "org.Long2"), ("I", "com.example.Iface"), ("é.ü", "ü.Ö"), ("Lib", "Lib2")];
+    let lookup = |c: &str| table.iter().find(|(k, _)| *k == c).map(|(_, v)| v.to_string());
+    let (mut ps, rets) = exhaustive_alphabet();
+    ps.push(Ty::Obj("é/ü".into()));
+    ps.push(Ty::Prim('Z'));
+    ps.push(Ty::Obj("zz/U".into()));
+    st.class("mass stage: distinct descriptors on one long-lived mapper and cache");
+    for i in c.start..c.start + c.count {
+        let d = nth_desc(i, &ps, &rets);
+        let s = d.encode();
+        let (params, ret, formatted) = d.expected(&lookup);
+        let want = SigOut { params, ret, formatted };
+        st.evaluations += 2;
+        for r in [&m as &dyn Retracer, &cache] {
+            let got = sig_of(r, &s)?;
+            if got.as_ref() != Some(&want) {
+                return Err(Fail::new("sig-valid", format!("{}: deobfuscate_signature({s:?}) = {got:?}, expected {want:?} (descriptor #{i} asked of a long-lived instance)", r.name())).with(json!({"descriptor": s, "index": i})));
+            }
+        }
+    }
+    st.nontrivial(c.start ^ 0x16);
+    Ok(())
+}
+
 #[derive(Clone, Debug, Serialize)]
 pub struct ExhaustiveChunk {
     pub ret: usize,
@@ -347,6 +397,9 @@ pub fn run(ctx: &Ctx) -> Report {
         }
     }
     rep.run_enum("big", &bigs, check_big);
+    let per = ctx.cases(40_000, 2_000_000);
+    let mass: Vec<MassChunk> = (0..16u64).map(|k| MassChunk { start: 1 + k * per, count: per }).collect();
+    rep.run_enum("mass", &mass, check_mass);
     let chunks: Vec<ExhaustiveChunk> = (0..7).map(|ret| ExhaustiveChunk { ret }).collect();
     rep.run_enum("exhaustive", &chunks, check_exhaustive);
     rep.stats.exhaustive.push("all descriptors with <=3 parameters over the 6-type alphabet x 7 return types".into());
@@ -358,6 +411,7 @@ pub fn replay(stage: &str, case: &Value) -> Check {
     match stage {
         "ast" => check_case(&serde_json::from_value(case.clone()).map_err(|e| Fail::new("harness-replay", e.to_string()))?, &mut st),
         "big" => check_big(&serde_json::from_value(case.clone()).map_err(|e| Fail::new("harness-replay", e.to_string()))?, &mut st),
+        "mass" => check_mass(&serde_json::from_value(case.clone()).map_err(|e| Fail::new("harness-replay", e.to_string()))?, &mut st),
         "exhaustive" => check_exhaustive(&ExhaustiveChunk { ret: case["ret"].as_u64().unwrap_or(0) as usize }, &mut st),
         _ => Err(Fail::new("harness-replay", format!("unknown stage {stage}"))),
     }
